@@ -17,19 +17,19 @@ E == Log[l]
 Load(e) ==
   /\ cfg' = e.cfg /\ pos' = Keep /\ seed' = e.seed /\ dirty' = FALSE
   /\ mat' = [cpos |-> e.cfg.cpos, model |-> e.cfg.model]
-  /\ kvar' = NoTag /\ rawk' = NoTag /\ res' = NoTag /\ own' = FALSE
+  /\ kvar' = NoTag /\ rawk' = NoTag /\ res' = NoTag /\ own' = [r |-> FALSE, k |-> FALSE]
   /\ op' = [name |-> "Init"]
 
 TraceInit ==
   /\ l = 2 /\ Log[1].name = "Init"
   /\ cfg = Log[1].cfg /\ pos = Keep /\ seed = Log[1].seed /\ dirty = FALSE
   /\ mat = [cpos |-> cfg.cpos, model |-> cfg.model]
-  /\ kvar = NoTag /\ rawk = NoTag /\ res = NoTag /\ own = FALSE
+  /\ kvar = NoTag /\ rawk = NoTag /\ res = NoTag /\ own = [r |-> FALSE, k |-> FALSE]
   /\ op = [name |-> "Init"]
 
 Step ==
   CASE E.name = "Init"         -> Load(E)
-    [] E.name = "Call"         -> Call(E.p, E.s)
+    [] E.name = "Call"         -> Call(E.p, E.s, E.st, E.kst)
     [] E.name = "SetPos"       -> SetPos(E.p)
     [] E.name = "SetCondition" -> SetCondition(E.cp, E.cv, E.form)
     [] E.name = "ChangeModel"  -> ChangeModel(E.m, E.how)
